@@ -11,8 +11,14 @@ import (
 )
 
 func init() {
-	generators["C20"] = genC20
-	generators["C18"] = genC18
+	generators["C20"] = func(tier, out string, sum *Summary) {
+		genC20(tier, out, sum)
+		extraTextCases("C20", tier, out, sum, true, false)
+	}
+	generators["C18"] = func(tier, out string, sum *Summary) {
+		genC18(tier, out, sum)
+		extraTextCases("C18", tier, out, sum, true, true)
+	}
 	generators["C15"] = genC15
 }
 
@@ -815,6 +821,26 @@ func genC15(tier, out string, sum *Summary) {
 			}
 			sum.direct("determinism", text, sc.doc, fmt.Sprintf("first evaluation gives %s, evaluation on an equal, differently built document gives %s", describe(first), describe(o)))
 			break
+		}
+	}
+	// constructs that walk or rebuild arrays, on documents with nulls inside nested arrays: the same document searched
+	// again, and an equal one built afresh, give the same outcome (a search that compacts the caller's arrays in place
+	// answers correctly once and differently ever after)
+	for i, text := range rebuildFamily() {
+		if tier != "thorough" && i%2 != 0 || enumText(text) {
+			continue
+		}
+		for _, ds := range rebuildDocs {
+			doc := jsonDoc(ds)
+			first := search(text, doc)
+			sum.count("rebuild/" + first.Kind)
+			for rep, d := range []any{doc, jsonDoc(ds), doc, rebuild(jsonDoc(ds))} {
+				o := search(text, d)
+				if !sameObs(first, o, strings.Contains(text, "*") || strings.Contains(text, "keys(") || strings.Contains(text, "values(") || strings.Contains(text, "items(")) {
+					sum.direct("determinism", text, jsonDoc(ds), fmt.Sprintf("first evaluation gives %s, evaluation %d (same document again / an equal document) gives %s", describe(first), rep+2, describe(o)))
+					break
+				}
+			}
 		}
 	}
 	// one-step evaluation and a fresh compilation are the same function: bare words (keywords, literals spelled
